@@ -291,7 +291,11 @@ class Gen:
     def case_cond(self, inf, var):
         r = self.rng
         ctype = r.choice(["", "", ""] + TEST_TYPES_OK)
-        value = "x" if ctype in NO_ARG_TESTS else self.word()
+        if ctype in NO_ARG_TESTS:
+            # tests without arguments are usually written with a blank value: the edge is still conditional
+            value = r.choice(["", "", "x"])
+        else:
+            value = self.word()
         key = (ctype or "has_any_word", "" if ctype in NO_ARG_TESTS else value)
         if key in inf["tests"] or (ctype in NO_ARG_TESTS and any(k[0] == ctype for k in inf["tests"] if isinstance(k, tuple))):
             if self.wf:
